@@ -81,6 +81,7 @@ RULE_TITLES = {
     'R50': 'stored integers of values are written only in freshly built objects (values are immutable)',
     'R51': 'no unbound local or free variable on the count path',
     'R52': 'optional source / comment strings are read whenever a quoted token follows',
+    'R57': 'every recorded key (quota, votes, surplus, residual, nt_votes, cstate fields ...) is read from the election field of that meaning',
     'R56': 'indexes inside range(len(xs) - k) loops of the counting rules stay inside the list',
     'R55': 'QPQ stage bookkeeping (tx, va, vc, tc, quotient, new weight, restart) equals Woodall 2.3-2.5 modulo renaming, in order',
     'R54': 'QPQ: an election by quotient re-weights the winner\'s ballots before the next action is recorded',
@@ -161,7 +162,7 @@ prop('C17',
 prop('C18',
      [('R37', rr.r37_status_changes_logged), ('R38', rr.r38_first_and_last_action), ('R39', rr.r39_tag_agreement),
       ('R40', rr.r40_action_key_flow), ('R41', rr.r41_renderers_read_record), ('R42', rr.r42_dump_arity),
-      ('R03', bt.r03_duplicates), ('R05', cf.r05_status_ownership), ('R44', it.r44_append_only), ('R53', nm.r53_rule_interface)],
+      ('R03', bt.r03_duplicates), ('R05', cf.r05_status_ownership), ('R44', it.r44_append_only), ('R53', nm.r53_rule_interface), ('R57', rr.r57_recorded_sources)],
      'Static analysis of /repo source: elect/defeat log themselves on every path; the first recorded action of every rule '
      'is begin/count/round and the end action is followed directly by the result assignment; tags agree between emitters, '
      'recorder and renderers; renderers and rule hooks read only action keys that the recorder stores for that kind of '
@@ -269,7 +270,7 @@ prop('C10',
      ['equality of whole records under re-presentation (metamorphic)', 'tokenizer layout/comment/nickname behaviour'])
 prop('C08',
      [('R00', cf.r00_helper_semantics), ('R10', mk.r10_residual_pairing), ('R10c', mk.r10c_keep_split), ('R11', mk.r11_keep_factors), ('R12', mk.r12_iteration_exits),
-      ('R14', qt.r14_elect_before_exclude), ('R04', lp.r04_loops), ('R21', va.r21_scale_rounding), ('R29', ps.r29_ballot_count_pairing), ('R19', gr.r19_multiplier_last), ('R20', gr.r20_order_free_loops), ('R22', va.r22_closure)],
+      ('R14', qt.r14_elect_before_exclude), ('R04', lp.r04_loops), ('R21', va.r21_scale_rounding), ('R29', ps.r29_ballot_count_pairing), ('R19', gr.r19_multiplier_last), ('R20', gr.r20_order_free_loops), ('R22', va.r22_closure), ('R57', rr.r57_recorded_sources)],
      'Static analysis of meek.py and meek_prf.py: in every block of the distribution loops the expressions credited to a '
      'tally are exactly those debited from the ballot residual, residuals start at the multiplier and are summed once per '
      'ballot, tallies and the round residual are zeroed first (with exact add/sub, R21, votes + residual = ballots); keep '
@@ -295,7 +296,7 @@ prop('C04',
 
 prop('C02',
      [('R00', cf.r00_helper_semantics), ('R07', gr.r07_transfer_once), ('R08', gr.r08_reset_pairing), ('R09', gr.r09_reweighting), ('R10', mk.r10_residual_pairing), ('R10b', mk.r10b_redistribute_before_record), ('R10c', mk.r10c_keep_split), ('R29', ps.r29_ballot_count_pairing),
-      ('R19', gr.r19_multiplier_last), ('R21', va.r21_scale_rounding), ('R22', va.r22_closure), ('R37', rr.r37_status_changes_logged), ('R20', gr.r20_order_free_loops), ('R54', gr.r54_qpq_reweight), ('R55', gr.r55_qpq_stage)],
+      ('R19', gr.r19_multiplier_last), ('R21', va.r21_scale_rounding), ('R22', va.r22_closure), ('R37', rr.r37_status_changes_logged), ('R20', gr.r20_order_free_loops), ('R54', gr.r54_qpq_reweight), ('R55', gr.r55_qpq_stage), ('R57', rr.r57_recorded_sources)],
      'Static analysis of the bookkeeping shape that conservation rests on: a transferred ballot is credited exactly once '
      '(candidate or non-transferable total); a tally is reset only after all its ballots were passed on; transfer values '
      'are old x surplus / tally rounded down (a transfer cannot create votes); Meek credits and residual debits are the same '
